@@ -195,37 +195,58 @@ def _objects(v, savefile=None):
     return objs, tags
 
 
-def _snapshot(s, rec, n0, msg):
+def _snapshot(s, rec, n0, msg, objs):
     return (msg, tuple(_vec(p) for p in s.population), tuple(_fy(e) for e in s.popEnergy),
             _vec(s.bestSolution), _fy(s.bestEnergy), int(s.evaluations), int(s.generations),
-            _mon(s._stepmon), _mon(s._evalmon), tuple(rec.log[n0:]))
+            len(s._stepmon), len(s._evalmon), tuple(rec.log[n0:]), len(objs['stepmon']), len(objs['evalmon']))
 
 
 SNAP_FIELDS = ('message', 'population', 'popEnergy', 'bestSolution', 'bestEnergy', 'evaluations', 'generations',
-               'step monitor', 'evaluation monitor', 'cost call log')
+               'length of the step monitor', 'length of the evaluation monitor', 'cost call log',
+               'length of the Monitor given to SetGenerationMonitor', 'length of the Monitor given to SetEvaluationMonitor')
+FINAL_FIELDS = ('final', 'step monitor', 'evaluation monitor', 'the Monitor given to SetGenerationMonitor',
+                'the Monitor given to SetEvaluationMonitor', 'restart file (generations, evaluations, best, energy)')
 
 
-def run_config(v, seq, savefile=None, want='digest', omit=None):
-    """configure a fresh solver by the calls of `seq` in that order, then NSTEPS x Step.
-    -> dict(canons=[digest after each call], rng_cfg, rng_end, traj) ; want='full' keeps the raw data"""
-    rng = env.SeededRandom(v.get('seed', 0))
+def configure(v, seq, savefile=None, at=(), full=False):
+    """fresh solver + the calls of `seq` in that order (inside the caller's owned_random context).
+    -> (solver, objects, canon digests {position: digest}, raw canons)"""
     objs, tags = _objects(v, savefile)
-    full = (want == 'full')
-    canons, raw_canons, traj = [], [], []
-    with quiet(), env.owned_random(rng):
-        s = solverlab.new_solver(v['solver'], v.get('dim', 2), v.get('npop', 4))
-        tags[id(s)] = 'solver'
-        for name in seq:
-            try:
-                _apply_call(s, name, v, objs)
-                c = canon(s, tags)
-            except HarnessFault:
-                raise
-            except Exception as e:
-                c = ('RAISED', name, type(e).__name__, str(e)[:120])
-            canons.append(digest(repr(c)))
+    if savefile and os.path.exists(savefile):
+        os.remove(savefile)
+    s = solverlab.new_solver(v['solver'], v.get('dim', 2), v.get('npop', 4))
+    tags[id(s)] = 'solver'
+    canons, raw = {}, {}
+    failed = None
+    for i, name in enumerate(seq):
+        try:
+            _apply_call(s, name, v, objs)
+        except Exception as e:
+            failed = ('RAISED', name, type(e).__name__, str(e)[:120])
+        if full or (i + 1) in at or i + 1 == len(seq):
+            c = failed if failed is not None else canon(s, tags)
+            canons[i + 1] = digest(repr(c))
             if full:
-                raw_canons.append(c)
+                raw[i + 1] = c
+    return s, objs, canons, raw
+
+
+def canon_only(v, seq, pos, savefile=None):
+    """settings-state digest after the first `pos` calls of seq (no Steps)"""
+    rng = env.SeededRandom(v.get('seed', 0))
+    with quiet(), env.owned_random(rng):
+        s, objs, canons, raw = configure(v, seq[:pos], savefile, at=(pos,))
+    return canons[pos]
+
+
+def run_config(v, seq, savefile=None, want='digest', at=()):
+    """configure a fresh solver by the calls of `seq` in that order, then NSTEPS x Step.
+    -> dict(canons={position: digest}, rng_cfg, rng_end, traj digest...) ; want='full' keeps the raw data"""
+    rng = env.SeededRandom(v.get('seed', 0))
+    full = (want == 'full')
+    traj = []
+    with quiet(), env.owned_random(rng):
+        s, objs, canons, raw_canons = configure(v, seq, savefile, at, full)
         rng_cfg = rng_digest(rng)
         rec = objs['cost']
         for k in range(v.get('nsteps', NSTEPS)):
@@ -236,7 +257,7 @@ def run_config(v, seq, savefile=None, want='digest', omit=None):
                 msg = 'HORIZON'
             except Exception as e:
                 msg = 'RAISED %s: %s' % (type(e).__name__, str(e)[:120])
-            traj.append(_snapshot(s, rec, n0, msg))
+            traj.append(_snapshot(s, rec, n0, msg, objs))
             if isinstance(msg, str) and msg.startswith(('RAISED', 'HORIZON')):
                 break
         rng_end = rng_digest(rng)
@@ -250,7 +271,7 @@ def run_config(v, seq, savefile=None, want='digest', omit=None):
             except Exception as e:
                 saved = ('UNREADABLE', type(e).__name__)
             os.remove(savefile)
-        traj.append(('saved', saved))
+        traj.append(('final', _mon(s._stepmon), _mon(s._evalmon), _mon(objs['stepmon']), _mon(objs['evalmon']), saved))
     out = {'canons': canons, 'rng_cfg': rng_cfg, 'rng_end': rng_end, 'traj': digest(repr(traj)),
            'nsteps_run': len(traj) - 1, 'ncalls': len(rec.log),
            'last_msg': traj[-2][0] if len(traj) > 1 else None}
@@ -263,9 +284,8 @@ def run_config(v, seq, savefile=None, want='digest', omit=None):
 def _first_traj_diff(ta, tb):
     for k, (a, b) in enumerate(zip(ta, tb)):
         if a != b:
-            if a[0] == 'saved' or b[0] == 'saved':
-                return 'restart file', 'restart file written by SetSaveFrequency: %r vs %r' % (a, b)
-            for name, x, y in zip(SNAP_FIELDS, a, b):
+            names = FINAL_FIELDS if (a[0] == 'final' or b[0] == 'final') else SNAP_FIELDS
+            for name, x, y in zip(names, a, b):
                 if x != y:
                     return name, 'step %d: %s differs: %s vs %s' % (k + 1, name, _clip(x), _clip(y))
     if len(ta) != len(tb):
@@ -291,22 +311,27 @@ def _first_canon_diff(ca, cb):
 def compare_runs(v, seq1, seq2, mid, T, part, savefile=None, cache=None):
     """run both orders (through the cache), judge, record violations; mid = number of calls after which the
     settings state must already agree (None: only at the end of the configuration)"""
+    pos = mid if mid is not None else len(seq1)
+
     def get(seq):
-        if cache is not None and seq in cache:
-            return cache[seq]
-        r = run_config(v, seq, savefile)
-        T.count('traces')
-        T.count('transitions', len(seq) + r['nsteps_run'])
-        T.hist('A_last_step_message', '%s:%s' % (v['solver'], (r['last_msg'] or 'None').split(' ')[0]))
-        if cache is not None:
-            cache[seq] = r
+        r = cache.get(seq) if cache is not None else None
+        if r is None:
+            r = run_config(v, seq, savefile, at=(pos,))
+            T.count('traces')
+            T.count('transitions', len(seq) + r['nsteps_run'])
+            T.hist('A_last_step_message', '%s:%s' % (v['solver'], (r['last_msg'] or 'None').split(' ')[0]))
+            if cache is not None:
+                cache[seq] = r
+        elif pos not in r['canons']:
+            r['canons'][pos] = canon_only(v, seq, pos, savefile)
+            T.count('A_settings_only_runs')
+            T.count('transitions', pos)
         return r
     r1, r2 = get(seq1), get(seq2)
     bad = []
-    pos = (mid if mid is not None else len(seq1)) - 1
     if r1['canons'][pos] != r2['canons'][pos]:
         bad.append('settings_state')
-    elif r1['canons'][-1] != r2['canons'][-1]:
+    elif r1['canons'][len(seq1)] != r2['canons'][len(seq2)]:
         bad.append('settings_state')
     if r1['rng_cfg'] != r2['rng_cfg']:
         bad.append('rng_state_after_configuration')
@@ -321,9 +346,9 @@ def compare_runs(v, seq1, seq2, mid, T, part, savefile=None, cache=None):
     pair = _swapped(seq1, seq2)
     for clause in bad:
         if clause == 'settings_state':
-            p = pos if f1['raw_canons'][pos] != f2['raw_canons'][pos] else len(seq1) - 1
+            p = pos if f1['raw_canons'][pos] != f2['raw_canons'][pos] else len(seq1)
             field, text = _first_canon_diff(f1['raw_canons'][p], f2['raw_canons'][p])
-            text = 'after %d calls %s' % (p + 1, text)
+            text = 'after %d calls %s' % (p, text)
         elif clause == 'trajectory':
             field, text = _first_traj_diff(f1['raw_traj'], f2['raw_traj'])
         else:
@@ -363,13 +388,22 @@ def _savefile():
     return os.path.join(d, 'restart.pkl')
 
 
+def _diamond_list(calls, only=None):
+    ds = diamonds(calls)
+    if only:
+        ds = [d for d in ds if calls[d[1]] == only or calls[d[2]] == only]
+    # neighbours in this order share many complete call sequences (the per-shard cache then saves ~20% of the runs)
+    ds.sort(key=lambda d: d[0] + (d[1], d[2]) + d[3])
+    return ds
+
+
 def shard_diamond(item):
-    v, calls, lo, hi = item
+    v, calls, lo, hi, only = item
     T = Tally()
     calls = tuple(calls)
     sf = _savefile() if 'savefreq' in calls else None
     cache = {}
-    ds = diamonds(calls)[lo:hi]
+    ds = _diamond_list(calls, only)[lo:hi]
     active = set(v.get('_active', calls))
     for U, a, b, r in ds:
         s1 = tuple(calls[i] for i in U + (a, b) + r)
@@ -378,79 +412,633 @@ def shard_diamond(item):
         T.count('A_diamonds')
         T.hist('A_diamond_outcome', 'agree' if ok else 'DIFFER')
         if calls[a] in active and calls[b] in active:
-            T.nontriv(('A', v['solver'], v['name'], U, a, b))
+            T.nontriv(('A', v['solver'], v['name'], len(calls), U, a, b))
     for r_ in cache.values():
-        T.state(('A', v['solver'], v['name'], r_['traj'], r_['rng_end']))
-    T.sample({'part': 'A-diamond', 'solver': v['solver'], 'variant': v['name'],
-              'U': [calls[i] for i in ds[0][0]], 'a': calls[ds[0][1]], 'b': calls[ds[0][2]]}, 1)
+        T.hist('A_trajectory_digest_by_config', '%s/%s/%d-calls:%s' % (v['solver'], v['name'], len(calls), r_['traj'].hex()))
+        T.state(('A', v['solver'], v['name'], len(calls), r_['traj'], r_['rng_end']))
+    if ds:
+        T.sample({'part': 'A-diamond', 'solver': v['solver'], 'variant': v['name'],
+                  'U': [calls[i] for i in ds[0][0]], 'a': calls[ds[0][1]], 'b': calls[ds[0][2]]}, 1)
     return T
 
 
 def shard_perms(item):
-    v, permuted, suffix, first = item
+    v, permuted, suffix, firsts = item
     T = Tally()
     sf = _savefile() if 'savefreq' in tuple(permuted) + tuple(suffix) else None
     base = tuple(permuted) + tuple(suffix)
     cache = {}
-    others = [c for c in permuted if c != first]
     n = 0
-    for p in itertools.permutations(others):
-        seq = (first,) + p + tuple(suffix)
-        ok = compare_runs(v, base, seq, None, T, 'A-permutation', sf, cache)
-        n += 1
-        T.count('A_permutations')
-        T.hist('A_permutation_outcome', 'agree' if ok else 'DIFFER')
-        if seq != base:
-            T.nontriv(('Ap', v['solver'], v['name'], seq))
+    for first in firsts:
+        first = tuple(first)
+        others = [c for c in permuted if c not in first]
+        for p in itertools.permutations(others):
+            seq = first + p + tuple(suffix)
+            ok = compare_runs(v, base, seq, None, T, 'A-permutation', sf, cache)
+            n += 1
+            T.count('A_permutations')
+            T.hist('A_permutation_outcome', 'agree' if ok else 'DIFFER')
+            if seq != base:
+                T.nontriv(('Ap', v['solver'], v['name'], seq))
     for r_ in cache.values():
-        T.state(('A', v['solver'], v['name'], r_['traj'], r_['rng_end']))
-    T.sample({'part': 'A-permutation', 'solver': v['solver'], 'variant': v['name'], 'first': first, 'orders': n}, 1)
+        T.hist('A_trajectory_digest_by_config', '%s/%s/%d-perm:%s' % (v['solver'], v['name'], len(permuted), r_['traj'].hex()))
+        T.state(('A', v['solver'], v['name'], len(permuted), r_['traj'], r_['rng_end']))
+    T.sample({'part': 'A-permutation', 'solver': v['solver'], 'variant': v['name'], 'first': firsts[0], 'orders': n}, 1)
     return T
 
 
-def shard_sensitivity(item):
-    """non-vacuity: leaving any single call out of the canonical sequence must change the observable run
-    (otherwise agreeing orders would prove nothing about that call)"""
-    v, calls = item
-    T = Tally()
+def sensitivity(v, calls):
+    """non-vacuity: which single calls, when left out of the canonical sequence, change the observable run
+    (an order-insensitive call that changes nothing would make agreeing orders prove nothing about it)"""
     calls = tuple(calls)
     sf = _savefile() if 'savefreq' in calls else None
     full = run_config(v, calls, sf)
-    T.count('traces'); T.count('transitions', len(calls) + full['nsteps_run'])
     active = []
     for c in calls:
         r = run_config(v, tuple(x for x in calls if x != c), sf)
-        T.count('traces'); T.count('transitions', len(calls) - 1 + r['nsteps_run'])
-        matters = (r['traj'] != full['traj']) or (r['rng_end'] != full['rng_end'])
-        T.hist('A_call_changes_the_run', '%s:%s' % (c, 'yes' if matters else 'no'))
-        if matters:
+        if (r['traj'] != full['traj']) or (r['rng_end'] != full['rng_end']):
             active.append(c)
-    T.state(('A-sens', v['solver'], v['name'], full['traj']))
-    T.notes.append('ACTIVE %s %s %s' % (v['solver'], v['name'], ','.join(active)))
-    return T
+    return active
 
 
 def variants(ctx):
     sd = ctx.seed
-    base = [
-        {'name': 'A1', 'cost': 'sphere', 'init': 'point', 'x0': [3.0, -2.0], 'box': 'unit', 'con': 'clamp/pure',
-         'pen': 'ramp', 'term': 'never', 'limits': [4, None], 'seed': 11 + sd},
-        {'name': 'A2', 'cost': 'steps', 'init': 'random', 'initbox': 'unit', 'box': 'shift', 'clip': True,
-         'con': 'tie/inplace', 'pen': 'quad', 'term': 'cog1', 'limits': [None, 9], 'seed': 23 + sd},
-    ]
-    extra = [
-        {'name': 'A3', 'cost': 'vec', 'reducer': 'sum', 'init': 'point', 'x0': [0.8, -0.4], 'box': 'unit', 'tight': True,
-         'con': 'round/pure', 'pen': 'text', 'term': 'crt', 'limits': [5, 40], 'seed': 37 + sd},
-        {'name': 'A4', 'cost': 'absum', 'reducer': 'max', 'init': 'random', 'initbox': 'shift', 'box': 'unit', 'clip': False,
-         'con': 'pin1/inplace', 'pen': 'ramp', 'term': 'never', 'limits': [3, None], 'seed': 41 + sd},
-    ]
-    return base, extra
+    return {
+        'A1': {'name': 'A1', 'cost': 'sphere', 'init': 'point', 'x0': [3.0, -2.0], 'box': 'unit', 'con': 'clamp/pure',
+               'pen': 'quad', 'term': 'never', 'limits': [4, None], 'seed': 11 + sd},
+        'A2': {'name': 'A2', 'cost': 'steps', 'init': 'random', 'initbox': 'unit', 'box': 'shift', 'clip': True,
+               'con': 'tie/inplace', 'pen': 'ramp', 'term': 'cog1', 'limits': [None, 9], 'seed': 23 + sd},
+        # thorough: array-valued cost + reducer
+        'A3': {'name': 'A3', 'cost': 'vec', 'reducer': 'sum', 'init': 'point', 'x0': [0.8, -0.4], 'box': 'unit', 'clip': True,
+               'con': 'round/pure', 'pen': 'quad', 'term': 'crt', 'limits': [5, 40], 'seed': 37 + sd},
+        # thorough, small call sets only (slow settings): symbolic tight bounds / random re-entry bounds
+        'A4': {'name': 'A4', 'cost': 'absum', 'init': 'random', 'initbox': 'shift', 'box': 'unit', 'tight': True,
+               'con': 'pin1/inplace', 'pen': 'ramp', 'term': 'never', 'limits': [3, None], 'seed': 41 + sd, 'nsteps': 4},
+        'A5': {'name': 'A5', 'cost': 'sphere', 'init': 'point', 'x0': [3.0, -2.0], 'box': 'unit', 'clip': False,
+               'con': 'clamp/inplace', 'pen': 'quad', 'term': 'cog1', 'limits': [None, 12], 'seed': 43 + sd, 'nsteps': 4},
+    }
 
 
-# ====================================================================== dispatch / run (parts B, C appended below)
+# ====================================================================== (B) DE2 under a scripted map
+def de2_cfgs(ctx):
+    sd = ctx.seed
+    out = [
+        {'name': 'B2', 'cost': 'steps', 'seed': 102 + 7 * sd, 'initbox': 'unit', 'box': 'shift', 'con': 'clamp/inplace', 'pen': 'quad'},
+        {'name': 'B3', 'cost': 'infwall', 'seed': 103 + 7 * sd, 'initbox': 'unit', 'box': 'unit', 'con': 'tie/pure', 'pen': 'ramp',
+         'strategy': 'Rand1Bin'},
+    ]
+    if ctx.thorough:
+        out += [
+            {'name': 'B1', 'cost': 'sphere', 'seed': 101 + 7 * sd, 'initbox': 'unit'},
+            {'name': 'B4', 'cost': 'illq', 'seed': 104 + 7 * sd, 'initbox': 'shift', 'box': 'unit', 'clip': True, 'con': 'round/pure',
+             'strategy': 'Best1Exp'},
+            {'name': 'B5', 'cost': 'vec', 'reducer': 'sum', 'seed': 105 + 7 * sd, 'initbox': 'unit', 'pen': 'quad', 'strategy': 'RandToBest1Exp'},
+        ]
+    return out
+
+
+def de2_run(cfg, ch, mapkind, nsteps):
+    """one DE2 run; mapkind in python (the serial default) / share / copy.
+    -> (core trajectory, evaluations per step, sorted call multiset per step, orders used)"""
+    from mystic.solvers import DifferentialEvolutionSolver2
+    from mystic.monitors import Monitor
+    import mystic.strategy as strat
+    dim = cfg.get('dim', 2)
+    rng = env.SeededRandom(cfg['seed'])
+    rec = solverlab.Recorder(cfg['cost'], 20000)
+    core, evals, calls = [], [], []
+    kw = {}
+    if cfg.get('strategy'):
+        kw['strategy'] = getattr(strat, cfg['strategy'])
+    with quiet(), env.owned_random(rng):
+        s = DifferentialEvolutionSolver2(dim, cfg.get('npop', 4))
+        lo, hi = solverlab.effective_box(cfg.get('initbox', 'unit'), dim)
+        s.SetRandomInitialPoints(list(lo), list(hi))
+        if cfg.get('box'):
+            blo, bhi = solverlab.box_of(cfg['box'], dim)
+            bk = {}
+            if cfg.get('clip') is not None:
+                bk['clip'] = cfg['clip']
+            s.SetStrictRanges(list(blo), list(bhi), **bk)
+        if cfg.get('con'):
+            kind, variant = (cfg['con'].split('/') + ['pure'])[:2]
+            s.SetConstraints(solverlab.Con(kind, variant == 'inplace'))
+        if cfg.get('pen'):
+            s.SetPenalty(solverlab.Pen(cfg['pen']))
+        if cfg.get('reducer'):
+            s.SetReducer(solverlab.REDUCERS[cfg['reducer']], arraylike=True)
+        s.SetTermination(solverlab.make_term('never'))
+        s.SetEvaluationMonitor(Monitor())
+        s.SetGenerationMonitor(Monitor())
+        m = None
+        if mapkind != 'python':
+            m = env.ScriptedMap(ch, copy=(mapkind == 'copy'), label='de2map')
+            s.SetMapper(m)
+        s.SetObjective(rec)
+        for k in range(nsteps):
+            n0 = len(rec.log)
+            try:
+                msg = s.Step(**kw)
+            except solverlab.Horizon:
+                msg = 'HORIZON'
+            except Exception as e:
+                msg = 'RAISED %s: %s' % (type(e).__name__, str(e)[:160])
+            core.append((msg, tuple(_vec(p) for p in s.population), tuple(_fy(e) for e in s.popEnergy),
+                         _vec(s.bestSolution), _fy(s.bestEnergy), int(s.generations), _mon(s._stepmon),
+                         tuple(len(g) for g in s.genealogy), rng_digest(rng).hex()))
+            evals.append(int(s.evaluations))
+            calls.append(tuple(sorted(rec.log[n0:], key=repr)))
+            if isinstance(msg, str) and msg.startswith(('RAISED', 'HORIZON')):
+                break
+    return tuple(core), tuple(evals), tuple(calls)
+
+
+CORE_FIELDS = ('message', 'population', 'popEnergy', 'bestSolution', 'bestEnergy', 'generations', 'step monitor',
+               'genealogy sizes', 'random generator state')
+
+
+def _core_diff(a, b):
+    for k, (x, y) in enumerate(zip(a, b)):
+        if x != y:
+            for name, p, q in zip(CORE_FIELDS, x, y):
+                if p != q:
+                    return name, 'generation %d: %s %s vs %s' % (k, name, _clip(p, 160), _clip(q, 160))
+    return 'length', '%d vs %d steps' % (len(a), len(b))
+
+
+def cost_returns_inf(cfg):
+    return cfg['cost'] in ('infwall',)
+
+
+def shard_de2(item):
+    cfg, mapkind, nsteps, bound, fix = item
+    T = Tally()
+    ref = de2_run(cfg, None, 'python', nsteps)
+    T.count('traces'); T.count('transitions', nsteps)
+    nsched = 0
+    seen = set()
+    sub = None if bound is None else bound - sum(1 for c in fix if c)
+
+    def run(ch):
+        return de2_run(cfg, Pre(ch, fix), mapkind, nsteps)
+    for ch, (core, evals, calls) in tree.explore(run, bound=sub):
+        nsched += 1
+        choices = list(fix) + ch.choices
+        T.count('traces'); T.count('transitions', nsteps + len(choices))
+        T.count('B_schedules')
+        d = digest(repr((core, evals)))
+        seen.add(d)
+        T.hist('B_trajectory_digest_by_config', '%s/%s/%dgen:%s' % (cfg['name'], mapkind, nsteps, digest(repr(core)).hex()))
+        if any(choices):
+            T.nontriv(('B', cfg['name'], mapkind, nsteps, tuple(choices)))
+        case = {'part': 'B', 'cfg': cfg, 'mapkind': mapkind, 'nsteps': nsteps, 'choices': choices}
+        where = '[DE2 cfg=%s map=%s evaluation orders=%r]' % (cfg, mapkind, choices)
+        if core != ref[0]:
+            field, text = _core_diff(core, ref[0])
+            T.violate({'part': 'B', 'clause': 'trajectory_vs_serial_default', 'mapkind': mapkind, 'field': field,
+                       'cfg': cfg['name']}, case, 'DE2 trajectory under the scripted map differs from the serial default: %s %s' % (text, where))
+        if mapkind == 'share' and calls != ref[2]:
+            T.violate({'part': 'B', 'clause': 'evaluated_points_vs_serial_default', 'mapkind': mapkind, 'cfg': cfg['name']}, case,
+                      'the multiset of points handed to the cost differs from the serial default %s' % where)
+        if evals != ref[1]:
+            T.violate({'part': 'B', 'clause': 'evaluations_vs_serial_default', 'mapkind': mapkind,
+                       'cost_returns_inf': cost_returns_inf(cfg)}, case,
+                      'DE2 solver.evaluations per generation %r, serial default %r %s' % (evals, ref[1], where))
+    for d in seen:
+        T.state(('B', cfg['name'], mapkind, nsteps, d))
+    T.hist('B_distinct_digests_in_shard', len(seen))
+    T.sample({'part': 'B', 'cfg': cfg, 'mapkind': mapkind, 'generations': nsteps, 'first_order_index': list(fix), 'schedules': nsched}, 1)
+    return T
+
+
+# ====================================================================== (C) ensembles
+def ens_cfgs(ctx):
+    sd = ctx.seed
+    out = [
+        {'name': 'C1', 'cost': 'sphere', 'box': 'unit', 'term': 'never', 'limits': [3, None], 'evalmon': False, 'seed': 201 + 5 * sd},
+        # members stop at different generations (ChangeOverGeneration for some, the limit for others)
+        {'name': 'C2', 'cost': 'sphere', 'box': 'shift', 'con': 'clamp/pure', 'pen': 'ramp', 'term': 'cog', 'limits': [5, None],
+         'evalmon': True, 'seed': 202 + 5 * sd},
+    ]
+    if ctx.thorough:
+        out.append({'name': 'C3', 'cost': 'rosen', 'box': 'shift', 'con': 'tie/inplace', 'term': 'ncog', 'limits': [5, 60],
+                    'evalmon': True, 'seed': 203 + 5 * sd})
+    return out
+
+
+def ens_build(cfg, kind, nested, mapper):
+    from mystic.solvers import LatticeSolver, BuckshotSolver, NelderMeadSimplexSolver, PowellDirectionalSolver
+    from mystic.monitors import Monitor
+    dim = 2
+    if kind == 'L22':
+        s = LatticeSolver(dim, nbins=(2, 2))
+    elif kind == 'L21':
+        s = LatticeSolver(dim, nbins=(2, 1))
+    elif kind == 'B3':
+        s = BuckshotSolver(dim, npts=3)
+    else:
+        raise KeyError(kind)
+    s.SetNestedSolver(NelderMeadSimplexSolver if nested == 'NM' else PowellDirectionalSolver)
+    lo, hi = solverlab.box_of(cfg['box'], dim)
+    s.SetStrictRanges(list(lo), list(hi))
+    if cfg.get('con'):
+        k, variant = (cfg['con'].split('/') + ['pure'])[:2]
+        s.SetConstraints(solverlab.Con(k, variant == 'inplace'))
+    if cfg.get('pen'):
+        s.SetPenalty(solverlab.Pen(cfg['pen']))
+    s.SetEvaluationLimits(cfg['limits'][0], cfg['limits'][1])
+    if cfg.get('evalmon'):
+        s.SetEvaluationMonitor(Monitor())
+    s.SetGenerationMonitor(Monitor())
+    t = solverlab.make_term(cfg.get('term', 'never'))
+    if t is not None:
+        s.SetTermination(t)
+    s.SetObjective(solverlab.Recorder(cfg['cost'], 50000))
+    if mapper is not None:
+        s.SetMapper(mapper)
+    return s
+
+
+def _member_obs(m):
+    raw = m._cost[1]
+    return (m.id, _vec(m.bestSolution), _fy(m.bestEnergy), int(m.evaluations), int(m.generations))
+
+
+def _member_deep(m):
+    raw = m._cost[1]
+    return (_mon(m._stepmon), _mon(m._evalmon), tuple(getattr(raw, 'log', ())))
+
+
+def ens_observe(s):
+    members = tuple(_member_obs(m) for m in s._allSolvers)
+    result = (_vec(s.bestSolution), _fy(s.bestEnergy), members, int(s._total_evals))
+    deep = (tuple(_member_deep(m) for m in s._allSolvers), _mon(s._stepmon), _mon(s._evalmon),
+            int(s.evaluations), int(s.generations))
+    return result, deep
+
+
+RESULT_FIELDS = ('bestSolution', 'bestEnergy', 'per-member (id, best solution, best energy, evaluations, generations)',
+                 'total evaluations')
+DEEP_FIELDS = ('per-member (step monitor, evaluation monitor, cost call log)', 'ensemble step monitor',
+               'ensemble evaluation monitor', 'ensemble evaluations', 'ensemble generations')
+
+
+def _tuple_diff(names, a, b):
+    if a is None or b is None or len(a) != len(b) or (a and isinstance(a[0], tuple) and a[0] and a[0][0] in ('RAISED', 'HORIZON')) \
+            or (b and isinstance(b[0], tuple) and b[0] and b[0][0] in ('RAISED', 'HORIZON')):
+        return 'exception', '%s vs %s' % (_clip(a, 260), _clip(b, 260))
+    for n, x, y in zip(names, a, b):
+        if x != y:
+            if isinstance(x, tuple) and isinstance(y, tuple) and len(x) == len(y) and n.startswith('per-member'):
+                for i, (p, q) in enumerate(zip(x, y)):
+                    if p != q:
+                        return n, 'member %d: %s vs %s' % (i, _clip(p, 200), _clip(q, 200))
+            return n, '%s: %s vs %s' % (n, _clip(x, 200), _clip(y, 200))
+    return '?', 'differ'
+
+
+def ens_run(cfg, kind, nested, mode, mapper, max_steps=80):
+    """-> (result, deep, per-step trajectory (manual mode), number of ensemble steps)"""
+    rng = env.SeededRandom(cfg['seed'])
+    traj = []
+    raised = None
+    with quiet(), env.owned_random(rng):
+        s = ens_build(cfg, kind, nested, mapper)
+        try:
+            if mode == 'solve':
+                s.Solve()
+            elif mode == 'solvestep':
+                s.Solve(step=True)
+            elif mode == 'manual':
+                n = 0
+                while True:
+                    msg = s.Step()
+                    n += 1
+                    traj.append((msg, tuple(_member_obs(m) for m in s._allSolvers)))
+                    if msg:
+                        break
+                    if n >= max_steps:
+                        raise HarnessFault('manual Step loop did not stop within %d ensemble steps' % max_steps)
+            else:
+                raise KeyError(mode)
+        except (HarnessFault, baton.HarnessFault, tree.Diverged, KeyError):
+            raise
+        except solverlab.Horizon as e:
+            raised = ('HORIZON', str(e))
+        except Exception as e:          # the library's exception is an outcome of this schedule / mode
+            raised = ('RAISED', type(e).__name__, str(e)[:160])
+        try:
+            result, deep = ens_observe(s)
+        except Exception as e:
+            if raised is None:
+                raise
+            result, deep = ('unobservable after the exception',), None
+    if raised is not None:
+        result = (raised,) + tuple(result)
+    return result, deep, tuple(traj)
+
+
+MODES = ('solve', 'solvestep', 'manual')
+
+
+def _make_mapper(mapkind, ch, max_preempt):
+    if mapkind == 'python':
+        return None
+    if mapkind == 'share':
+        return env.ScriptedMap(ch, copy=False, label='ensmap')
+    if mapkind == 'copy':
+        return env.ScriptedMap(ch, copy=True, label='ensmap')
+    if mapkind == 'threads':
+        return baton.BatonMap(ch, max_preempt=max_preempt, horizon=2000, label='baton')
+    raise KeyError(mapkind)
+
+
+def ens_exec(cfg, kind, nested, mode, mapkind, ch, max_preempt=0):
+    m = _make_mapper(mapkind, ch, max_preempt)
+    if mapkind == 'threads':
+        with baton.step_boundaries():
+            out = ens_run(cfg, kind, nested, mode, m)
+    else:
+        out = ens_run(cfg, kind, nested, mode, m)
+    return out + (m,)
+
+
+def ens_reference(cfg, kind, nested):
+    """serial default (python_map) in the three modes; the cross-mode clause is judged here"""
+    return {mode: ens_run(cfg, kind, nested, mode, None) for mode in MODES}
+
+
+def judge_modes(cfg, kind, nested, ref, T):
+    base = ref['solve'][0]
+    for mode in ('solvestep', 'manual'):
+        T.count('C_mode_comparisons')
+        if ref[mode][0] != base:
+            field, text = _tuple_diff(RESULT_FIELDS, ref[mode][0], base)
+            T.violate({'part': 'C', 'clause': 'stepwise_vs_run_to_completion', 'ensemble': kind, 'nested': nested, 'mode': mode,
+                       'field': field},
+                      {'part': 'C', 'cfg': cfg, 'kind': kind, 'nested': nested, 'mode': mode, 'mapkind': 'python', 'fix': [], 'choices': [],
+                       'max_preempt': 0},
+                      '%s+%s: result in mode %s differs from Solve(): %s [cfg=%s]' % (kind, nested, mode, text, cfg))
+    if ref['solvestep'][1] != ref['manual'][1]:
+        field, text = _tuple_diff(DEEP_FIELDS, ref['solvestep'][1], ref['manual'][1])
+        T.violate({'part': 'C', 'clause': 'solve_step_vs_manual_loop', 'ensemble': kind, 'nested': nested, 'field': field},
+                  {'part': 'C', 'cfg': cfg, 'kind': kind, 'nested': nested, 'mode': 'manual', 'mapkind': 'python', 'fix': [], 'choices': [],
+                   'max_preempt': 0},
+                  '%s+%s: Solve(step=True) and the manual Step loop differ: %s [cfg=%s]' % (kind, nested, text, cfg))
+
+
+def shard_ens(item):
+    cfg, kind, nested, mode, mapkind, bound, max_preempt, fix, judge_ref = item
+    T = Tally()
+    ref = ens_reference(cfg, kind, nested)
+    T.count('traces', 3); T.count('transitions', 3)
+    if judge_ref:
+        judge_modes(cfg, kind, nested, ref, T)
+        T.hist('C_member_generations_at_stop', '%s/%s/%s:%s' % (cfg['name'], kind, nested, _stop_kinds(ref['manual'])))
+    rres, rdeep, rtraj = ref[mode]
+    sub = None if bound is None else bound - sum(1 for c in fix if c)
+    seen = set()
+    nsched = 0
+
+    def run(ch):
+        return ens_exec(cfg, kind, nested, mode, mapkind, Pre(ch, fix), max_preempt)
+    for ch, (res, deep, traj, m) in tree.explore(run, bound=sub):
+        nsched += 1
+        choices = list(fix) + ch.choices
+        T.count('traces'); T.count('transitions', len(choices) + (getattr(m, 'handoffs', 0) or getattr(m, 'calls', 0)))
+        T.count('C_schedules_%s' % mapkind)
+        seen.add(digest(repr((res, deep))))
+        T.hist('C_result_digest_by_config', '%s/%s/%s:%s' % (cfg['name'], kind, nested, digest(repr(res)).hex()))
+        if mapkind == 'threads':
+            T.hist('C_thread_preemptions', m.preemptions)
+            T.hist('C_thread_max_concurrently_started_members', m.max_concurrent)
+            nt = m.preemptions > 0 or any(choices)
+        else:
+            nt = any(choices)
+        if nt:
+            T.nontriv(('C', cfg['name'], kind, nested, mode, mapkind, tuple(choices)))
+        case = {'part': 'C', 'cfg': cfg, 'kind': kind, 'nested': nested, 'mode': mode, 'mapkind': mapkind,
+                'fix': [], 'choices': choices, 'max_preempt': max_preempt}
+        where = '[%s+%s cfg=%s mode=%s map=%s choices=%r]' % (kind, nested, cfg, mode, mapkind, choices)
+        sig = {'part': 'C', 'ensemble': kind, 'nested': nested, 'mode': mode, 'mapkind': mapkind}
+        if res != rres:
+            field, text = _tuple_diff(RESULT_FIELDS, res, rres)
+            T.violate(dict(sig, clause='result_vs_serial_default', field=field), case,
+                      'ensemble result depends on the map schedule: %s (this schedule vs serial default) %s' % (text, where))
+        elif deep != rdeep:
+            field, text = _tuple_diff(DEEP_FIELDS, deep, rdeep)
+            T.violate(dict(sig, clause='monitors_or_calls_vs_serial_default', field=field), case,
+                      'ensemble monitors / member call logs depend on the map schedule: %s %s' % (text, where))
+        elif mode == 'manual' and traj != rtraj:
+            T.violate(dict(sig, clause='stepwise_trajectory_vs_serial_default'), case,
+                      'per-step member states of the manual Step loop depend on the map schedule %s' % where)
+    for d in seen:
+        T.state(('C', cfg['name'], kind, nested, mode, mapkind, d))
+    T.hist('C_distinct_outcomes_in_shard', len(seen))
+    T.sample({'part': 'C', 'cfg': cfg, 'ensemble': kind, 'nested': nested, 'mode': mode, 'map': mapkind,
+              'max_preempt': max_preempt, 'deviation_bound': bound, 'prefix': list(fix), 'schedules': nsched}, 1)
+    return T
+
+
+def _stop_kinds(ref):
+    res, deep, traj = ref
+    if len(res) != 4:
+        return 'exception in the serial default: %s' % (res[0],)
+    msg = (traj[-1][0] or '') if traj else '?'
+    return '%s after %d ensemble steps, member generations %s' % (msg.split(' ')[0], len(traj), [m[4] for m in res[2]])
+
+
+# ====================================================================== dispatch / run / replay
 def _dispatch(item):
     kind, payload = item
-    return _SHARDS[kind](payload)
+    return {'Ad': shard_diamond, 'Ap': shard_perms, 'B': shard_de2, 'C': shard_ens}[kind](payload)
 
 
-_SHARDS = {'Ad': shard_diamond, 'Ap': shard_perms, 'As': shard_sensitivity}
+def _fixes(nopt, bound, two_level=True):
+    """shard prefixes over the first choice point(s): under a deviation bound the all-default branch carries most of
+    the tree, so it is split once more"""
+    if nopt <= 1:
+        return [[]]
+    if bound is None or not two_level:
+        return [[c] for c in range(nopt)]
+    return [[c] for c in range(1, nopt)] + [[0, c] for c in range(nopt)]
+
+
+def _chunks(n, size):
+    return [(i, min(n, i + size)) for i in range(0, n, size)]
+
+
+def plan(ctx):
+    th = ctx.thorough
+    V = variants(ctx)
+    items = []
+    info = {}
+    # ---------------- (A)
+    full_calls = CALLS_T[:-1] if th else CALLS_Q          # thorough: + reducer (10 calls); savefreq handled below
+    lattice = []
+    for solver in solverlab.SOLVERS:
+        names = ['A1', 'A2', 'A3'] if th else (['A1', 'A2'] if solver == 'DE2' else ['A1'])
+        for nm in names:
+            lattice.append((solver, nm, full_calls, None))
+        if th:
+            lattice.append((solver, 'A1', CALLS_T, 'savefreq'))       # every diamond in which SetSaveFrequency is a or b
+            for nm in ('A4', 'A5'):
+                lattice.append((solver, nm, ('init', 'ranges', 'constraints', 'penalty', 'objective', 'limits'), None))
+    active_tab = {}
+    for solver, nm, calls, only in lattice:
+        v = dict(V[nm], solver=solver, dim=2)
+        act = sensitivity(v, calls)
+        ctx.tally.count('traces', len(calls) + 1)
+        active_tab['%s/%s/%d' % (solver, nm, len(calls))] = act
+        v['_active'] = act
+        nd = len(_diamond_list(tuple(calls), only))
+        size = 96 if solver == 'Powell' or only else 144
+        if len(calls) <= 6:
+            size = 60
+        for lo, hi in _chunks(nd, size):
+            items.append(('Ad', (v, list(calls), lo, hi, only)))
+        info['%s/%s/%d calls%s' % (solver, nm, len(calls), '/pairs with savefreq' if only else '')] = nd
+    # literal permutations
+    if th:
+        permuted = ('init', 'ranges', 'constraints', 'penalty', 'objective', 'limits', 'evalmon', 'reducer')
+        suffix = ('term', 'stepmon')
+        pv = {'NM': 'A3', 'Powell': 'A1', 'DE': 'A2', 'DE2': 'A3'}
+        firsts = [[(a, b)] for a in permuted for b in permuted if a != b]      # 56 shards x 720 orders
+    else:
+        permuted = ('init', 'ranges', 'constraints', 'penalty', 'objective', 'evalmon')
+        suffix = ('term', 'limits', 'stepmon')
+        pv = {'NM': 'A2', 'Powell': 'A2', 'DE': 'A2', 'DE2': 'A1'}
+        firsts = [[(a,)] for a in permuted]                                   # 6 shards x 120 orders
+    for solver in solverlab.SOLVERS:
+        v = dict(V[pv[solver]], solver=solver, dim=2)
+        for f in firsts:
+            items.append(('Ap', (v, list(permuted), list(suffix), f)))
+    info['literal permutations'] = '%d orders of %d calls per solver' % (math.factorial(len(permuted)), len(permuted))
+    # ---------------- (B)
+    bplan = [(3, None)] if th else [(3, 2)]
+    if th:
+        bplan.append((4, 2))
+    for cfg in de2_cfgs(ctx):
+        for mapkind in ('share', 'copy'):
+            for nsteps, bound in bplan:
+                if th and mapkind == 'copy' and (cfg['name'] in ('B1', 'B5') or (nsteps == 4 and cfg['name'] != 'B2')):
+                    continue        # the copying map costs ~10x the sharing one: three configurations complete, one at 4 generations
+                for fix in _fixes(24, bound):
+                    items.append(('B', (cfg, mapkind, nsteps, bound, fix)))
+    info['B plan (generations, deviation bound; None = complete)'] = bplan
+    # ---------------- (C)
+    cplan = []
+    kinds = ('L21', 'B3', 'L22')
+    nmem = {'L21': 2, 'B3': 3, 'L22': 4}
+    for cfg in ens_cfgs(ctx):
+        for kind in kinds:
+            for nested in ('NM', 'Powell'):
+                n = nmem[kind]
+                nf = math.factorial(n)
+                # run to completion: one map call, every order, sharing and copying
+                for mapkind in ('share', 'copy'):
+                    cplan.append((cfg, kind, nested, 'solve', mapkind, None, 0, [[c] for c in range(nf)] if nf > 6 else [[]]))
+                # step-wise modes, sharing map
+                if th:
+                    b = {'L21': 4, 'B3': 3, 'L22': 2}[kind]
+                else:
+                    b = {'L21': 3, 'B3': 2, 'L22': 1}[kind]
+                for mode in ('solvestep', 'manual'):
+                    cplan.append((cfg, kind, nested, mode, 'share', b, 0, _fixes(nf, b)))
+                # step-wise modes, copying map (slow: dill copies the whole ensemble per work item)
+                if cfg['name'] == 'C1' or th:
+                    if th:
+                        bc = {'L21': 3, 'B3': 2, 'L22': 1}[kind]
+                    else:
+                        bc = {'L21': 2, 'B3': 1, 'L22': 0}[kind]
+                    if bc and (th or kind == 'L21' or nested == 'NM'):
+                        for mode in (('solvestep', 'manual') if th else (('manual',) if nested == 'NM' else ('solvestep',))):
+                            cplan.append((cfg, kind, nested, mode, 'copy', bc, 0, _fixes(nf, bc)))
+                # real threads under the baton scheduler
+                mp = 2 if th else 1
+                cplan.append((cfg, kind, nested, 'solve', 'threads', None, mp, [[c] for c in range(n)]))
+                bt = 2 if th else 1
+                cplan.append((cfg, kind, nested, 'manual' if nested == 'NM' else 'solvestep', 'threads', bt, 1, _fixes(n, bt)))
+    first = set()
+    for cfg, kind, nested, mode, mapkind, bound, mp, fixes in cplan:
+        for fix in fixes:
+            key = (cfg['name'], kind, nested)
+            items.append(('C', (cfg, kind, nested, mode, mapkind, bound, mp, fix, key not in first)))
+            first.add(key)
+    info['C plan rows (cfg, ensemble, nested, mode, map, deviation bound, max preemptions)'] = \
+        sorted(set((k, m, mk, b, mp) for _, k, _, m, mk, b, mp, _ in cplan))
+    return items, info, active_tab
+
+
+def run(ctx):
+    parts = os.environ.get('VERIF_PARTS')
+    items, info, active_tab = plan(ctx)
+    if parts:
+        items = [it for it in items if it[0][0] in parts.split(',')]
+    mk = os.environ.get('VERIF_C07_MAPKIND')        # development aid: restrict part C to one kind of map
+    if mk:
+        items = [it for it in items if it[0] != 'C' or it[1][4] == mk]
+    # heavy shards first (better packing on the pool)
+    order = {'C': 0, 'B': 1, 'Ad': 2, 'Ap': 3}
+    items.sort(key=lambda it: order[it[0]])
+    ctx.bounds = {'A_calls_quick': list(CALLS_Q), 'A_calls_thorough': list(CALLS_T), 'A_steps': NSTEPS,
+                  'A_variants': variants(ctx), 'A_diamonds_per_lattice': info, 'A_calls_that_change_the_run': active_tab,
+                  'B_configs': de2_cfgs(ctx), 'C_configs': ens_cfgs(ctx), 'ensembles': ['Lattice(2,1)', 'Buckshot(3)', 'Lattice(2,2)'],
+                  'nested': ['NelderMeadSimplexSolver', 'PowellDirectionalSolver'], 'shards': len(items)}
+    ctx.rule = ("(A) every diamond (U, a, b) of the configuration-call lattice and every literal order of a smaller call set, each executed "
+                "on a fresh real solver and followed by 6 Steps; a diamond is non-trivial when leaving out a and leaving out b each changes the "
+                "observable run of that variant (measured, see A_calls_that_change_the_run). (B) every evaluation order of the 4 DE2 work items "
+                "per map call within the deviation bound, sharing and dill-copying map; (C) every member order per map call (deviation bound "
+                "across calls), Solve / Solve(step=True) / manual Step loop, sharing / copying map, and every baton-thread schedule with hand-offs "
+                "at member Step boundaries within the preemption bound. In (B),(C) a schedule is non-trivial when it differs from the serial order. "
+                "states = distinct (configuration, outcome digest) pairs: the *_digest_by_config histograms must show one digest per configuration.")
+    ctx.assumptions = ["the copying map (dill copies of function, arguments and results) stands in for a process pool; real OS scheduling is not explored",
+                       "thread schedules are explored at member-Step granularity (one thread runs at a time)",
+                       "map results are returned in index order (the map contract)",
+                       "VERIF_SEED rotates the seeds of the seeded generator only",
+                       "DE2 counter comparison between maps is reported under its own clause when the cost itself returns inf "
+                       "(the copying path estimates the count from the energies)"]
+    ctx.pmap(_dispatch, items)
+    _summarise(ctx)
+
+
+def _summarise(ctx):
+    h = ctx.tally.h
+    lines = []
+    for name in ('A_trajectory_digest_by_config', 'B_trajectory_digest_by_config', 'C_result_digest_by_config'):
+        per = {}
+        for key, n in h.get(name, {}).items():
+            cfg, dg = key.rsplit(':', 1)
+            per.setdefault(cfg, {})[dg] = n
+        if per:
+            worst = max(len(d) for d in per.values())
+            total = sum(sum(d.values()) for d in per.values())
+            lines.append('%s: %d configurations, %d executions, max distinct digests per configuration = %d'
+                         % (name, len(per), total, worst))
+            h[name + '_summary'] = {cfg: '%d executions -> %d digest(s)' % (sum(d.values()), len(d)) for cfg, d in sorted(per.items())}
+            del h[name]
+    ctx.explanation = '; '.join(lines)
+
+
+def replay(case):
+    T = Tally()
+    part = case.get('part')
+    if part == 'A':
+        v = case['variant']
+        calls = tuple(case['seq1'])
+        sf = _savefile() if 'savefreq' in calls else None
+        compare_runs(v, tuple(case['seq1']), tuple(case['seq2']), case.get('mid'), T, 'A-replay', sf, None)
+    elif part == 'B':
+        cfg = case['cfg']
+        item = (cfg, case['mapkind'], case['nsteps'], 0, list(case['choices']))
+        # bound 0 below the fixed prefix: exactly the recorded schedule
+        T = shard_de2((cfg, case['mapkind'], case['nsteps'], sum(1 for c in case['choices'] if c), list(case['choices'])))
+    elif part == 'C':
+        cfg = case['cfg']
+        fix = list(case.get('fix', [])) + list(case.get('choices', []))
+        if case['mapkind'] == 'python':
+            judge_modes(cfg, case['kind'], case['nested'], ens_reference(cfg, case['kind'], case['nested']), T)
+        else:
+            T = shard_ens((cfg, case['kind'], case['nested'], case['mode'], case['mapkind'],
+                           sum(1 for c in fix if c), case.get('max_preempt', 0), fix, False))
+    return [v['detail'] for v in T.violations.values()]
